@@ -32,7 +32,7 @@ const PATHS: &[&str] = &[
     ".gitignore", "dist/.payload", "a", "b", "c", "foo", "bar", "README", "src/main.c", "src/lib.c", "src/util/x.c", "out/bin", "out/lib.so",
     "docs/index", "x/y/z", "pkg.tar", "a.b", "dir/a", "dir/b", "t-1", "u_2",
 ];
-const STEP_NAMES: &[&str] = &["fetch", "build", "test", "pack", "sign", "lint", "s0", "s1", "s2", "s3", "x", "a-b", "c_d", "p9"];
+const STEP_NAMES: &[&str] = &["fetch", "build", "test", "pack", "sign", "lint", "s0", "s1", "s2", "s3", "x", "a-b", "c_d", "p9", "build.release", "test.unit", "pack.tar.gz"];
 pub const TEXT_POOL: &[&str] = &[
     "", "a", "hello world", "line1\nline2", "back\\slash", "lit\\nnl", "quote\"q", "tab\there", "cr\rlf\n", "\u{0001}\u{001f}",
     "nul\u{0000}x", "üñí", "\u{1F600}", "\\", "\"", "\n", "\\\\n", "a\\", "{}", "[\"x\"]", "\\u0041", "\u{2028}", "\u{7f}",
@@ -72,10 +72,26 @@ pub fn text(r: &mut Rng) -> String {
     }
 }
 
+/// Runs come in blocks of 128 consecutive seeds (8 consecutive runs of one worker at 16 workers); in a
+/// third of the blocks every verification runs on the worker's long-lived verifier thread, so that
+/// thread-local state of the library carries over from one run to the next.
+pub fn same_thread_block(seed: u64) -> bool {
+    (seed >> 7) % 3 == 0
+}
+
 pub fn simple_name(r: &mut Rng) -> String {
     let n = 1 + r.below(10) as usize;
     let cs = b"abcdefghijklmnopqrstuvwxyz0123456789_-";
-    (0..n).map(|_| cs[r.idx(cs.len())] as char).collect()
+    let mut s: String = (0..n).map(|_| cs[r.idx(cs.len())] as char).collect();
+    // one name in ten has a dot in it ("build.release"), one in twenty two
+    if r.chance(1, 10) {
+        for _ in 0..1 + r.below(2) {
+            let m = 1 + r.below(7) as usize;
+            s.push('.');
+            s.extend((0..m).map(|_| cs[r.idx(cs.len())] as char));
+        }
+    }
+    s
 }
 
 #[derive(Clone, Debug)]
@@ -365,6 +381,10 @@ pub fn baseline(seed: u64, opts: &GenOpts) -> (SupplyTrace, Plan) {
         link_dir_style: 0,
         work_links: vec![],
         tz: None,
+        same_thread: false,
+        via_symlink: None,
+        mem_sigdup: vec![],
+        in_place: false,
     };
     (t, Plan { owners, funcs, outsiders, now: now.min(exp) })
 }
@@ -650,6 +670,11 @@ pub fn apply_fault(t: &mut SupplyTrace, plan: &Plan, f: F, r: &mut Rng, prefer_s
             if !t.keys[kk].kind.is_ed() && r.chance(2, 3) {
                 // a randomised scheme: the remaining owner signs twice, two different valid signatures
                 t.root.doc.signers.push(kk);
+            } else if r.chance(1, 3) {
+                t.root.doc.ops.push(DocOp::SigDupCase { at: keep });
+            } else if r.chance(1, 3) {
+                // repeated in the caller's memory, not in the file
+                t.mem_sigdup.push(keep);
             } else {
                 t.root.doc.ops.push(DocOp::SigDup(keep));
             }
@@ -666,8 +691,8 @@ pub fn apply_fault(t: &mut SupplyTrace, plan: &Plan, f: F, r: &mut Rng, prefer_s
             }
             let path = r.pick(&paths).clone();
             let base = path.rsplit('/').next().unwrap_or(&path).to_string();
-            let step = match base.split('.').next() {
-                Some(s) if base.ends_with(".link") => s.to_string(),
+            let step = match base.strip_suffix(".link").and_then(|b| b.rsplit_once('.')) {
+                Some((s, _)) => s.to_string(),
                 _ => return false,
             };
             let odd = [
@@ -964,7 +989,31 @@ pub fn apply_fault(t: &mut SupplyTrace, plan: &Plan, f: F, r: &mut Rng, prefer_s
             if !is_sub || lv.files.is_empty() {
                 return false;
             }
-            lv.subdir = String::new();
+            // the inner links are delivered somewhere else: to the parent directory itself, or to a
+            // directory whose name is a near miss of the dedicated one (<step>.<key-id prefix>)
+            let own = lv.subdir.clone();
+            let near: Vec<String> = {
+                let mut v = vec![String::new(), String::new()];
+                if let Some(i) = own.rfind('.') {
+                    let (step, prefix) = (&own[..i], &own[i + 1..]);
+                    v.push(step.to_string());
+                    v.push(prefix.to_string());
+                    v.push(format!("{own}.d"));
+                    v.push(own.to_ascii_uppercase());
+                    if let Some(j) = step.rfind('.') {
+                        // what replacing the "extension" of a dotted step name by the prefix gives
+                        v.push(format!("{}.{}", &step[..j], prefix));
+                        v.push(format!("{}.{}", &step[..j], prefix));
+                        v.push(format!("{}.{}", &step[..j], prefix));
+                    }
+                }
+                v
+            };
+            let pick = r.pick(&near).clone();
+            if pick == own {
+                return false;
+            }
+            lv.subdir = pick;
         }
         F::SubWrongSigner => {
             let (lv, is_sub) = pick_level(&mut t.root, r, true);
@@ -1305,7 +1354,7 @@ pub fn apply_fault(t: &mut SupplyTrace, plan: &Plan, f: F, r: &mut Rng, prefer_s
             let fi = r.idx(lv.files.len());
             let doc = file_signers(&mut lv.files[fi]);
             if f == F::SigDup {
-                doc.ops.push(DocOp::SigDup(0));
+                doc.ops.push(if r.chance(1, 3) { DocOp::SigDupCase { at: 0 } } else { DocOp::SigDup(0) });
             } else {
                 doc.signers.push(x);
                 doc.ops.push(DocOp::SigShuffle(r.next()));
@@ -1502,7 +1551,11 @@ pub fn apply_fault(t: &mut SupplyTrace, plan: &Plan, f: F, r: &mut Rng, prefer_s
                 _ => {
                     // same document under another key's prefix or another step's name
                     let base = path.rsplit('/').next().unwrap_or(&path).to_string();
-                    let mut parts: Vec<&str> = base.split('.').collect();
+                    // [<step>, <key-id prefix>, "link"] (the step name may have dots of its own)
+                    let mut parts: Vec<&str> = match base.strip_suffix(".link").and_then(|b| b.rsplit_once('.')) {
+                        Some((s, p)) => vec![s, p, "link"],
+                        None => vec![],
+                    };
                     let newname = if parts.len() == 3 && r.chance(1, 2) && !t.keys.is_empty() {
                         let k = r.idx(t.keys.len());
                         let pre = keys::key(t.keys[k]).prefix().to_string();
